@@ -352,11 +352,14 @@ var stBuf = stats.New("buffer")
 
 // TestC28Buffer. Linearizability-checked set: PushEvent and Clear (return value, the events
 // processed and the copies released during the call, attributed to the call through the goroutine
-// the callbacks run on), and those IsBuffered/Total calls that do not overlap any PushEvent/Clear
-// of another goroutine. IsBuffered/Total are documented as lock-free reads of the thread-safe
-// cache; when they overlap a PushEvent/Clear only a weaker contract is checked (the pair returned
-// by Total is one consistent snapshot of a set of events that were pushed and are not yet
-// connected; IsBuffered(x)=true only for a pushed, not yet connected x). Global invariants of C14
+// the callbacks run on), IsBuffered and Total. Known finding C28:buffer-total-isbuffered-overlap-push
+// (see TestC28BufferMidPushRead): IsBuffered/Total are lock-free reads of the thread-safe cache and
+// are not linearizable when they overlap a PushEvent/Clear. While that key is listed in
+// known_findings.txt this witness class is excluded by construction: an IsBuffered/Total call
+// that overlaps a PushEvent/Clear of another goroutine is taken out of the porcupine history and
+// only a weaker contract is checked for it (the pair returned by Total is one consistent snapshot
+// of a set of events that were pushed and are not yet connected; IsBuffered(x)=true only for a
+// pushed, not yet connected x). When the key is not listed every call is in the porcupine history. Global invariants of C14
 // are asserted on the callback log whatever the schedule: parents first, processed at most once,
 // every copy released exactly once after the final Clear.
 func TestC28Buffer(t *testing.T) {
@@ -472,7 +475,7 @@ func TestC28Buffer(t *testing.T) {
 							overl = true
 						}
 					}
-					if overl {
+					if overl && stBuf.Known(knownBufKey, "a Total()/IsBuffered() call overlapping PushEvent/Clear is kept out of the linearizability-checked set (weaker snapshot contract applied instead)") {
 						weak++
 						switch in.Op {
 						case bIsBuffered:
